@@ -698,6 +698,8 @@ static void fam_c18_purge(G& g, Plan& p) {
   long mult = g.pick({1, 10, 10}); long ext = g.pick({0, 1, 1});
   set_env(p, "PURGE_DELAY", delay); set_env(p, "ARENA_PURGE_MULT", mult); set_env(p, "PURGE_EXTEND_DELAY", ext);
   if (g.chance(0.3)) set_env(p, "PURGE_DECOMMITS", 0);
+  const bool many_arenas = g.chance(0.4);
+  if (many_arenas) set_env(p, "ARENA_RESERVE", "64MiB");       // whole segments end up in several arenas: more than two have expired purges at once
   p.progs.resize(1); p.nslots = 120; Program& P = p.progs[0];
   p.cfg.tick_ns = 0;
   int W = (int)g.below(3);    // 0: pages inside a segment that stays in use, 1: whole segments, 2: both, then everything
@@ -710,7 +712,7 @@ static void fam_c18_purge(G& g, Plan& p) {
     nwatch = n - 4; nsent = 4;
   }
   int nhuge = 0;
-  if (W == 1 || W == 2) { nhuge = 2 + (int)g.below(3); for (int i = 0; i < nhuge; i++) P.ops.push_back(mk(OP_malloc, 40 + i, 17 * MiB + g.below(40 * MiB))); }
+  if (W == 1 || W == 2) { nhuge = (many_arenas ? 3 : 2) + (int)g.below(3); for (int i = 0; i < nhuge; i++) P.ops.push_back(mk(OP_malloc, 40 + i, 17 * MiB + g.below(many_arenas ? 12 * MiB : 40 * MiB))); }
   // free what is to be watched
   for (int i = 0; i < nwatch; i++) { Op o = mk(OP_free, i); o.flags = OPF_WATCH; P.ops.push_back(o); if (delay == 0) P.ops.push_back(mk(OP_purge_check, -1, 1, 0)); }
   for (int i = 0; i < nhuge; i++) { Op o = mk(OP_free, 40 + i); o.flags = OPF_WATCH; P.ops.push_back(o); if (delay == 0) P.ops.push_back(mk(OP_purge_check, -1, 1, 0)); }
@@ -718,14 +720,15 @@ static void fam_c18_purge(G& g, Plan& p) {
   uint64_t span_wait = (uint64_t)(delay > 0 ? delay : 0) + (uint64_t)ext + 2;
   uint64_t arena_wait = (uint64_t)(delay > 0 ? delay : 0) * (uint64_t)mult + 2;
   uint64_t wait = (nhuge ? (arena_wait > span_wait ? arena_wait : span_wait) : span_wait);
-  int rounds = 3;
+  int rounds = many_arenas ? 4 : 3;
+  const bool huge_activity = g.chance(0.5);    // otherwise the non-forced mi_collect alone has to get the arenas purged
   for (int r = 0; r < rounds; r++) {
     P.ops.push_back(mk(OP_advance, -1, wait + g.below(5)));
     if (nsent > 0 && r < nsent) { Op o = mk(OP_free, nwatch + r); o.flags = OPF_SENTINEL; P.ops.push_back(o); }
     P.ops.push_back(mk(OP_collect, -1, 0));
     for (int i = 0; i < 4; i++) { P.ops.push_back(mk(OP_malloc, 101 + i, 48 + g.below(16))); }
     for (int i = 0; i < 4; i++) P.ops.push_back(mk(OP_free, 101 + i));
-    if (nhuge) { P.ops.push_back(mk(OP_malloc, 60, 17 * MiB + g.below(8 * MiB))); P.ops.push_back(mk(OP_free, 60)); }   // one segment-sized allocate/free
+    if (nhuge && huge_activity) { P.ops.push_back(mk(OP_malloc, 60, 17 * MiB + g.below(8 * MiB))); P.ops.push_back(mk(OP_free, 60)); }   // one segment-sized allocate/free
   }
   if (delay >= 0) P.ops.push_back(mk(OP_purge_check, -1, 1, (uint64_t)rounds, wait * (uint64_t)rounds));
   if (delay < 0) { P.ops.push_back(mk(OP_free_all)); P.ops.push_back(mk(OP_collect, -1, 1)); P.ops.push_back(mk(OP_purge_check, -1, 2)); }
@@ -986,6 +989,34 @@ static void fam_c12_holes(G& g, Plan& p) {
   P.ops.push_back(mk(OP_verify_all));
 }
 
+// an arena with more than 64 blocks: abandoned segments beyond the first bitmap field, with holes in the abandoned bitmap
+static void fam_c12_bigarena(G& g, Plan& p) {
+  set_env(p, "ARENA_RESERVE", g.pick({std::string("4GiB"), std::string("3GiB")}));
+  set_env(p, "VISIT_ABANDONED", 1);
+  set_env(p, "PURGE_DELAY", g.pick({-1, 10, 100}));
+  int nt = 3 + (int)g.below(3);
+  int total = 66 + (int)g.below(40);
+  p.nslots = total + 8; p.progs.resize((size_t)nt);
+  p.sample_verify = false;
+  Program& P0 = p.progs[0];
+  for (int t = 1; t < nt; t++) P0.ops.push_back(mk(OP_spawn, t));
+  // every object is a huge block in its own segment (one arena block); the allocating thread is chosen per object so that
+  // abandoned and still-owned (main) segments alternate irregularly in the arena bitmap
+  for (int i = 0; i < total; i++) {
+    int t = (int)g.below((uint64_t)nt);
+    Op o = mk(OP_malloc, i, 17 * MiB + g.below(6 * MiB)); o.flags = OPF_NO_FILL;
+    p.progs[(size_t)t].ops.push_back(o);
+    if (t != 0) p.progs[(size_t)t].ops.push_back(mk(OP_barrier, 100 + i, 2)), P0.ops.push_back(mk(OP_barrier, 100 + i, 2));   // allocation order = slot order
+  }
+  for (int t = 1; t < nt; t++) P0.ops.push_back(mk(OP_join, t));
+  // main frees some of its own and some abandoned ones: holes
+  for (int i = 0; i < total; i++) if (g.chance(0.25)) P0.ops.push_back(mk(OP_free, i));
+  P0.ops.push_back(mk(OP_census));
+  P0.ops.push_back(mk(OP_visit_abandoned, -1, g.below(1000)));
+  P0.ops.push_back(mk(OP_verify_all));
+  P0.ops.push_back(mk(OP_free_all));
+}
+
 // remote frees that have been collected by the owner before the walk
 static void fam_c12_remote(G& g, Plan& p) {
   int nt = 2 + (int)g.below(2);
@@ -1193,7 +1224,7 @@ static void fam_c17_misuse(G& g, Plan& p) {
     if (k < 25) P.ops.push_back(mk(OP_free, slot));
     else if (k < 30) P.ops.push_back(gen_realloc(g, slot, mix, 0, false));
     else if (k < 33) P.ops.push_back(mk(OP_collect, -1, g.below(2)));
-    else if (k < 41) P.ops.push_back(mk(kind == 0 ? OP_double_free : kind == 1 ? OP_overflow_byte : OP_corrupt_free_link, slot, g.below(1000000)));
+    else if (k < 41) { Op o = mk(kind == 0 ? OP_double_free : kind == 1 ? OP_overflow_byte : OP_corrupt_free_link, slot, g.below(1000000)); if (kind == 0) o.b = g.pick<uint64_t>({0, 1, 1, 2, 2}); P.ops.push_back(o); }
     else P.ops.push_back(mk(g.chance(0.1) ? OP_zalloc : OP_malloc, slot, g.chance(0.7) ? cls[g.below(cls.size())] : gen_size(g, mix)));
     if (g.chance(0.02)) kind = (int)g.below(3);
   }
@@ -1237,6 +1268,7 @@ static const FamilyDef FAMILIES[] = {
   {"c06_wellformed", "C06", fam_c06_wellformed, 1, false},
   {"c12_holes", "C12", fam_c12_holes, 1, false},
   {"c12_remote", "C12", fam_c12_remote, 1, true},
+  {"c12_bigarena", "C12", fam_c12_bigarena, 0, true},
 };
 
 std::vector<std::string> family_list() { std::vector<std::string> v; for (auto& f : FAMILIES) v.push_back(f.name); return v; }
